@@ -10,6 +10,10 @@ CLAIMED = {
   text="Decides, for every path of TryAttestation / Attest / attestationTally and every writer of the two oracle cursors in the module: the claim's effect, the Observed flag and the cursor advance happen only under !Observed, summed-voter-power > 66/100 of total (formula normalised symbolically; strict; threshold variable written only by its initialiser), and nonce == lastObserved+1, with the cursor advanced (and checked) before the effect; a vote is appended only under per-validator contiguity, after a membership test, and the validator's cursor is stored on every success path; cursor writers are monotone-guarded or reachable only from governance/genesis/listeners; the tally re-reads the cursor each iteration over the sorted nonce keys. NOT decided: arithmetic over concrete power distributions and power changes between vote and tally; 'exactly once whenever applicable'.",
   technique="SSA dominator guards + symbolic threshold normal form + must-pass-through + store-writer sets over VTA call graph",
   ref="C02"),
+ "C03": dict(
+  text="Decides over all 41 Msg handlers (discovered from the generated service interfaces), the ante decorator and the wasm bindings: every request type exposes Metadata and the authorised-signature decorator is in the installed ante chain; the decorator queries grants for each message's own creator, rebuilds its lookup structures per message and advances only past an acceptance (no metadata / signed by creator / signer among that creator's grantees); every request field that reaches an address parser anywhere in the handler's call tree (context-sensitive forward propagation of request paths) is tied to Metadata.Creator by an equality guard (handler, helper or ValidateBasic), covered by the governance-authority guard, authorised by the validator's external signature over the stored batch with verified identity == stored identity (ConfirmBatch), or listed as a beneficiary with a reason; governance handlers refuse unless a field equals the keeper authority; state-mutating handlers have a principal; bindings set the acting identity from the contract address only. NOT decided: x/feegrant semantics, SDK signature verification / signer annotations, authorisation that does not go through an address-typed request field (e.g. ownership looked up by numeric id).",
+  technique="entry-point discovery + context-sensitive forward access-path propagation to address parsers + dominator/refusing-edge guard matching + loop-structure checks",
+  ref="C03"),
  "C04": dict(
   text="Decides, for every path of the quorum predicate, VerifyEvidence, VerifyGasEstimates, AddEvidence, attestMessageWrapper and the two estimate setters: the predicate normalises symbolically to sum >= 2/3·total (non-strict, exact ratio) over TotalShares and ShareCount of found snapshot validators; a winner is stored only under the quorum of an accumulator re-created per evidence group, groups keyed by a hash of BytesToHash; per-validator evidence is replaced not appended and has one writer; attester and queue removal run only after VerifyEvidence==nil; the median is taken only under the quorum over a slice every element of which is assigned a submitted value; an elected estimate is written only when none exists; no wrapping +/* over two submitted estimates. NOT decided: boundary arithmetic for concrete share distributions, that the result is the median (sortedness / index arithmetic of Median).",
   technique="symbolic threshold normal form + SSA dominator guards + loop-structure (natural loop) checks + field writer sets",
